@@ -5,6 +5,7 @@ panic-site inventory over the cone of grammar::entry::top::source_file, decided
 by the token-kind abstract interpreter (grammar_ai.py) for all token-kind
 sequences.  Part L (lexer / glue): see c01_lexer.py.
 """
+import json
 from collections import defaultdict
 from kernel import *
 import grammar_run
@@ -400,6 +401,56 @@ def structural_part(prog, R):
     lookahead_relative(prog, R, "C01.6-lookahead-relative")
 
 
+def timing_unit_part(prog, R):
+    """validate_timing_literal (run on every tree, with or without diagnostics) unwraps the text of the unit of each
+    TIMING_LITERAL: `identifier().unwrap().text()`.  text() takes the first token of the IDENTIFIER node, so that node
+    must hold a token: in every grammar function that completes a TIMING_LITERAL, each path that does so has looked at
+    the token after the number and found IDENT, bumps exactly the number, and then calls identifier() (which bumps an
+    IDENT it is at).  This is the mechanical form of the reviewed reason of the text_of_first_token unwrap."""
+    from sym import SymExec, show, deep_strip
+    SK = {n: d for n, d in prog.enum_variants("oq3_parser::syntax_kind::syntax_kind_enum::SyntaxKind")}
+    ident, tl = SK.get("IDENT"), "SyntaxKind::TIMING_LITERAL"
+    vt = prog.body("oq3_syntax::validation::validate_timing_literal")
+    unwraps = vt is not None and any((vt.callee_of(t) or "").endswith(("Option::unwrap", "Option::expect", "Option<T>::unwrap", "Option<T>::expect")) for _, t in vt.calls())
+    if vt is None:
+        R.ob("ANCHOR", "oq3_syntax::validation::validate_timing_literal", False)
+        return
+    if not unwraps:
+        R.ob("C01.6-timing-unit-present", "validate_timing_literal does not unwrap the unit", True, vt.at, "no unwrap/expect in validate_timing_literal")
+        return
+    nfn, npth, bad = 0, 0, []
+    for k, b in sorted(prog.bodies.items()):
+        if not k.startswith("oq3_parser::grammar::") or "{closure" in k:
+            continue
+        if "TIMING_LITERAL" not in json.dumps(b.j["blocks"]) or not any((b.callee_of(t) or "").endswith("Marker::complete") for _, t in b.calls()):
+            continue
+        nfn += 1
+        se = SymExec(prog, b, max_visits=1)
+        for q in se.paths():
+            comp = [i for i, c in enumerate(q.calls) if c[0].endswith("Marker::complete") and any(tl in show(deep_strip(a)) for a in c[1])]
+            if not comp:
+                continue
+            npth += 1
+            pre = q.calls[:comp[0]]
+            idc = [i for i, c in enumerate(pre) if c[0].endswith("::identifier")]
+            bumps = [i for i, c in enumerate(pre) if c[0].endswith(("Parser::bump_any", "Parser::bump", "Parser::do_bump", "Parser::eat", "Parser::expect"))]
+            peeked = False
+            for c in q.conds:
+                if c[0] != "switch":
+                    continue
+                t_ = show(deep_strip(c[1]))
+                if t_ == "discr(nth(p, 1))" and c[2] == ("eq", ident):
+                    peeked = True
+                if t_ in ("nth_at(p, 1, SyntaxKind::IDENT)", "Eq(discr(nth(p, 1)), %s)" % ident) and c[2][0] == "ne":
+                    peeked = True
+            ok = peeked and len(idc) == 1 and len([i for i in bumps if i < idc[0]]) == 1 and not [i for i in bumps if i > idc[0]]
+            if not ok or se.truncated:
+                bad.append((k.split("::")[-1], peeked, len(idc), len(bumps)))
+    R.ob("C01.6-timing-unit-present", "every TIMING_LITERAL is completed after nth(1) == IDENT, one bump (the number) and identifier()", nfn >= 1 and npth >= 2 and not bad, vt.at,
+         f"{nfn} grammar function(s), {npth} completing paths: each tested nth(1) == IDENT, bumped the number and called identifier()" if not bad else
+         f"(function, saw nth(1)==IDENT, identifier() calls, bumps) {sorted(set(bad))[:3]}: a TIMING_LITERAL can be completed whose IDENTIFIER child holds no token (identifier() records an error and completes an empty node when it is not at an IDENT); validate_timing_literal then unwraps None in text_of_first_token")
+
+
 def run(prog, R):
     R.explanation = ("Token-kind abstract interpretation of the whole grammar (every Parser method and grammar function analysed from MIR, over all "
                      "token-kind sequences): PROGRESS (every loop iteration / recursion cycle consumes a token => termination and O(tokens) work), "
@@ -413,6 +464,7 @@ def run(prog, R):
     except grammar_run.AIUnavailable as e:
         ai_unavailable(R, e)
     structural_part(prog, R)
+    timing_unit_part(prog, R)
     try:
         import c01_lexer
         c01_lexer.run(prog, R)
